@@ -1334,8 +1334,15 @@ def rule_char_prov(facts):
         if b["name"] in ("is_newline", "is_inline_whitespace", "digit_zero"):
             continue   # literal tables: rule CHAR-SIB (order-insensitive)
         import rules_text
-        lits = sorted({"%s:%r" % (k, (chr(v) if isinstance(v, int) else v)) for k, v in rules_text.body_literals(b)})
-        comp[b["qname"]] = sorted(call_prov_of(facts, b) + (["literals %s" % ",".join(lits)] if lits else []))
+        import nf as _nf
+        eff = effects_nf(facts, b)
+        lit_bodies = [b]
+        for _, _, t_, f_ in calls(b):          # literals of the sibling impl a method delegates to belong to the method
+            cb_ = _NF[id(facts)].local_body(_nf._callee_id(f_))
+            if cb_ is not None and cb_.get("impl_trait") == "text::Char" and cb_ is not b:
+                lit_bodies.append(cb_)
+        lits = sorted({"%s:%r" % (k, (chr(v) if isinstance(v, int) else v)) for x in lit_bodies for k, v in rules_text.body_literals(x)})
+        comp[b["qname"]] = sorted(eff + (["literals %s" % ",".join(lits)] if lits else []))
     n = 0
     for q, got in sorted(comp.items()):
         n += 1
